@@ -1,10 +1,146 @@
-(* props/C02.v - property C02: the Tip5 permutation, its trace and the fixed-length hashes conform to the Tip5
-   specification.  Only statements, each closed by `exact`, each followed by Print Assumptions. *)
+(* props/C02.v - property C02: the Tip5 permutation, its round-by-round trace and the fixed-length hashes compute
+   exactly the function of the Tip5 specification (spec/Tip5Spec.v, on field values) for every state, and every
+   element of every intermediate and final state is stored canonically.
+   Only statements, each closed by `exact`, each followed by Print Assumptions.
+   Vocabulary: a state is the list of the Montgomery words of Tip5.state; canon a := 0 <= a < P;
+   val a := a * (2^64)^-1 mod P is the field value of a word; mont v its inverse (proofs/BFieldProofs.v). *)
 From Coq Require Import ZArith Bool List.
 From TF Require Import Word BFieldGen BFieldProofs Tip5Ssa Tip5Gen Tip5 Tip5Spec Tip5Proofs.
 Import ListNotations.
 Open Scope Z_scope.
 
+(* ---------------------------------------------------------------- tables and constants of the current source *)
 Theorem C02_lookup_table_is_formula : forall i, 0 <= i < 256 -> lookup i = fermat_cube i.
 Proof. exact lookup_table_is_formula. Qed.
 Print Assumptions C02_lookup_table_is_formula.
+
+Theorem C02_offset_fermat_cube_map : forall i, 0 <= i < 256 ->
+  offset_fermat_cube_map i = fermat_cube i /\ offset_fermat_cube_map_ok i = true.
+Proof. exact offset_fermat_cube_map_is_formula. Qed.
+Print Assumptions C02_offset_fermat_cube_map.
+
+Theorem C02_consts_match :
+  ROUND_CONSTANTS = map mont SPEC_RC /\ map bfe_value ROUND_CONSTANTS = SPEC_RC /\
+  MDS_MATRIX_FIRST_COLUMN = SPEC_COL /\ P = spec_p /\ Rinv = Rmont_inv /\
+  STATE_SIZE = 16 /\ RATE = 10 /\ CAPACITY = 6 /\ NUM_ROUNDS = 5 /\ NUM_SPLIT_AND_LOOKUP = 4 /\ DIGEST_LEN = 5 /\
+  SPONGE_RATE = 10 /\ EXTENSION_DEGREE = 3 /\ length ROUND_CONSTANTS = 80%nat.
+Proof. exact consts_match. Qed.
+Print Assumptions C02_consts_match.
+
+Theorem C02_rc_margin : Forall (fun c => 0 <= c <= P - 2 ^ 32) ROUND_CONSTANTS.
+Proof. exact rc_margin. Qed.
+Print Assumptions C02_rc_margin.
+
+(* ---------------------------------------------------------------- the linear layer *)
+(* generic: for ANY program of the SSA language the wrapping u64 evaluation is linear modulo 2^64 *)
+Theorem C02_ssa_linear : forall prog outs x, Forall (fun v => 0 <= v < M64) x ->
+  eval_ssa prog outs x = map (fun row => (dot row x) mod M64) (ssa_matrix prog outs).
+Proof. exact ssa_linear. Qed.
+Print Assumptions C02_ssa_linear.
+
+(* the regenerated generated_function: well-formed, coefficient matrix = 16 * circulant(col), and on 32-bit limbs
+   nothing wraps: the result is 16 * (M x) as integers *)
+Theorem C02_generated_function :
+  ssa_wf 16 GF_PROG GF_OUT = true /\
+  ssa_matrix GF_PROG GF_OUT = map (fun r => map (Z.mul 16) (circ_row MDS_MATRIX_FIRST_COLUMN r)) (seq 0 16) /\
+  forall x, Forall (fun v => 0 <= v < 2 ^ 32) x ->
+    generated_function x = map (fun r => 16 * dot (circ_row MDS_MATRIX_FIRST_COLUMN r) x) (seq 0 16).
+Proof. exact (conj gf_wf (conj gf_matrix gf_spec)). Qed.
+Print Assumptions C02_generated_function.
+Example C02_generated_function_hyp : Forall (fun v => 0 <= v < 2 ^ 32) (repeat 4294967295 16).
+Proof. apply Forall_forall. intros x Hx. apply repeat_spec in Hx. subst x. split; [discriminate | reflexivity]. Qed.
+
+(* the per-lane recombination of the regenerated mds_generated (including its `over` branch): a u64 congruent to
+   a + 2^32 b modulo p - not necessarily below p - and no unchecked operator overflows *)
+Theorem C02_mds_lane : forall a b, 0 <= a < 2 ^ 52 -> 0 <= b < 2 ^ 52 ->
+  0 <= mds_lane (16 * a) (16 * b) < 2 ^ 64 /\
+  (mds_lane (16 * a) (16 * b)) mod P = (a + 2 ^ 32 * b) mod P /\
+  mds_lane_ok (16 * a) (16 * b) = true.
+Proof. exact mds_lane_spec. Qed.
+Print Assumptions C02_mds_lane.
+
+(* recombine_spec: every lane of mds_generated, on ARBITRARY u64 words, is a u64 congruent modulo p to
+   (row r of the circulant matrix) . (raw words) *)
+Theorem C02_mds_generated_lanes : forall st, Forall word_ok st ->
+  mds_generated st = map (mds_out st) (seq 0 16) /\
+  forall r, (r < 16)%nat ->
+    0 <= mds_out st r < 2 ^ 64 /\
+    (mds_out st r) mod P = (dot (circ_row MDS_MATRIX_FIRST_COLUMN r) st) mod P /\
+    mds_lane_ok (16 * dot (crow r) (map mds_split_lo st)) (16 * dot (crow r) (map mds_split_hi st)) = true.
+Proof. exact (fun st H => conj (mds_generated_unfold st H) (fun r Hr => mds_out_spec st r Hr H)). Qed.
+Print Assumptions C02_mds_generated_lanes.
+
+Theorem C02_mds_generated : forall st, Forall word_ok st ->
+  Forall word_ok (mds_generated st) /\ map val (mds_generated st) = spec_mds (map val st) /\
+  length (mds_generated st) = 16%nat.
+Proof. exact mds_generated_spec. Qed.
+Print Assumptions C02_mds_generated.
+
+(* the regenerated bfe_add with a NON-canonical left operand and a constant at least 2^32 below p *)
+Theorem C02_add_noncanon : forall a c, 0 <= a < 2 ^ 64 -> 0 <= c <= P - 2 ^ 32 ->
+  bfe_add a c = (a + c) mod P /\ bfe_add_ok a c = true.
+Proof. exact add_noncanon. Qed.
+Print Assumptions C02_add_noncanon.
+Example C02_add_noncanon_hyp : 0 <= 2 ^ 64 - 1 < 2 ^ 64 /\ 0 <= nth 0 ROUND_CONSTANTS 0 <= P - 2 ^ 32.
+Proof. vm_compute. repeat split; discriminate. Qed.
+
+(* ---------------------------------------------------------------- the S-box layer *)
+Theorem C02_split_and_lookup : forall w, canon w ->
+  canon (split_and_lookup w) /\ val (split_and_lookup w) = spec_L (val w).
+Proof. exact split_and_lookup_spec. Qed.
+Print Assumptions C02_split_and_lookup.
+
+Theorem C02_pow7 : forall x, canon x -> canon (pow7 x) /\ val (pow7 x) = (val x) ^ 7 mod P.
+Proof. exact pow7_spec. Qed.
+Print Assumptions C02_pow7.
+
+Theorem C02_sbox_layer : forall st, Forall canon st ->
+  Forall canon (sbox_layer st) /\ map val (sbox_layer st) = spec_sbox (map val st) /\
+  length (sbox_layer st) = length st.
+Proof. exact sbox_layer_spec. Qed.
+Print Assumptions C02_sbox_layer.
+
+(* ---------------------------------------------------------------- round, permutation, trace *)
+Theorem C02_round_refines : forall i st, (i < 5)%nat -> Forall canon st ->
+  Forall canon (round i st) /\ map val (round i st) = spec_round i (map val st) /\ length (round i st) = 16%nat.
+Proof. exact round_refines. Qed.
+Print Assumptions C02_round_refines.
+Example C02_round_refines_hyp : Forall canon (map bfe_new [0; 1; 18446744069414584320; 2; 3; 4; 5; 6; 7; 8; 9; 10; 11; 12; 13; 14]).
+Proof. repeat (apply Forall_cons; [vm_compute; split; congruence|]). apply Forall_nil. Qed.
+
+Theorem C02_permutation_refines : forall st, Forall canon st ->
+  Forall canon (permutation st) /\ map val (permutation st) = spec_permutation (map val st) /\
+  length (permutation st) = 16%nat.
+Proof. exact permutation_refines. Qed.
+Print Assumptions C02_permutation_refines.
+
+Theorem C02_trace_refines : forall st, Forall canon st ->
+  Forall (Forall canon) (trace st) /\ map (map val) (trace st) = spec_trace (map val st) /\
+  last (trace st) [] = permutation st /\ length (trace st) = 6%nat.
+Proof. exact trace_refines. Qed.
+Print Assumptions C02_trace_refines.
+
+(* in terms of the public API: states built with BFieldElement::new, read with .value() *)
+Theorem C02_permutation_api : forall vs, Forall (fun v => 0 <= v < 2 ^ 64) vs ->
+  let out := permutation (map bfe_new vs) in
+  Forall canon out /\ map bfe_value out = spec_permutation (map (fun v => v mod P) vs) /\
+  out = map mont (spec_permutation (map (fun v => v mod P) vs)).
+Proof. exact permutation_api. Qed.
+Print Assumptions C02_permutation_api.
+
+(* ---------------------------------------------------------------- fixed-length hashes *)
+Theorem C02_hash_10 : forall input, Forall canon input ->
+  Forall canon (hash_10 input) /\ map val (hash_10 input) = spec_hash_10 (map val input).
+Proof. exact hash_10_spec. Qed.
+Print Assumptions C02_hash_10.
+
+Theorem C02_hash_pair : forall l r, Forall canon l -> Forall canon r -> length l = 5%nat -> length r = 5%nat ->
+  Forall canon (hash_pair l r) /\ map val (hash_pair l r) = spec_hash_pair (map val l) (map val r) /\
+  hash_pair l r = hash_10 (l ++ r).
+Proof. exact hash_pair_spec. Qed.
+Print Assumptions C02_hash_pair.
+
+Theorem C02_digest_hash : forall d, Forall canon d -> length d = 5%nat ->
+  Forall canon (digest_hash d) /\ map val (digest_hash d) = spec_digest_hash (map val d).
+Proof. exact digest_hash_spec. Qed.
+Print Assumptions C02_digest_hash.
